@@ -262,6 +262,9 @@ func (r *runner) panicFailure(what string, jsonNil bool, pe *panicErr) *hx.Failu
 	if jsonNil && strings.Contains(pe.stack, "JSONFieldGenerator") {
 		return hx.Failf(sigJSONNullPanic, "%s with j: null while a JSON index exists panics in %s: %v", what, site, pe.val)
 	}
+	if strings.HasPrefix(what, "partial-document update") && strings.Contains(pe.stack, "isUpdatingIndexedFields") {
+		return hx.Failf(sigPartialUpdatePanic, "%s panics on the indexed twin: a unique index whose field the document does not carry dereferences the missing value (%v in %s)", what, pe.val, site)
+	}
 	if strings.HasPrefix(what, "delete of deleted ") && strings.Contains(pe.stack, "deleteIndexedDocWithID") {
 		return hx.Failf(sigDeleteDeleted, "%s panics on the indexed twin (the twin without indexes answers with an error): %v in %s", what, pe.val, site)
 	}
@@ -346,6 +349,24 @@ func (r *runner) update(node int, id, patch string) error {
 	return col.Update(ctx, doc)
 }
 
+// partialUpdate is the collection-API route with a document that carries only the changed
+// fields (Collection.Update: "any field that is nil/empty that hasn't called Clear will be ignored").
+func (r *runner) partialUpdate(node int, id, patch string) error {
+	col := r.col(node)
+	did, err := client.NewDocIDFromString(id)
+	if err != nil {
+		hx.Harnessf("doc id %q: %v", id, err)
+	}
+	doc, err := client.NewDocWithID(did, col.Definition())
+	if err != nil {
+		hx.Harnessf("NewDocWithID: %v", err)
+	}
+	if err := doc.SetWithJSON([]byte(patch)); err != nil {
+		hx.Harnessf("generator produced a patch the input path rejects: %s: %v", patch, err)
+	}
+	return col.Update(r.node(node).Ctx, doc)
+}
+
 func (r *runner) delete(node int, id string) error {
 	did, err := client.NewDocIDFromString(id)
 	if err != nil {
@@ -353,6 +374,24 @@ func (r *runner) delete(node int, id string) error {
 	}
 	_, err = r.col(node).Delete(r.node(node).Ctx, did)
 	return err
+}
+
+// omittedIndexedFields lists the fields of existing indexes that a patch does not carry.
+func (r *runner) omittedIndexedFields(patch map[string]any) []string {
+	var out []string
+	seen := map[string]bool{}
+	for i, ix := range r.c.Idx {
+		if !r.exists[i] {
+			continue
+		}
+		for _, f := range ix.Fields {
+			if _, ok := patch[f.F]; !ok && !seen[f.F] {
+				seen[f.F] = true
+				out = append(out, f.F)
+			}
+		}
+	}
+	return out
 }
 
 func overlay(old, patch map[string]any) map[string]any {
@@ -465,14 +504,21 @@ func (r *runner) history() *hx.Failure {
 				r.docs = append(r.docs, d)
 				r.byID[id] = d
 			}
-		case "update":
+		case "update", "pupdate":
 			if len(r.docs) == 0 {
 				continue
 			}
 			d := r.docs[op.N%len(r.docs)]
 			patch, pv := r.docJSON(-1, op.Doc)
 			nv := overlay(d.Vals, pv)
-			ok, f := r.applyWrite(fmt.Sprintf("update of k=%d (%s, deleted=%v, was %s) with %s", d.K, d.ID, d.Deleted, hx.Canon(d.Vals), patch), nv, d.ID, !d.Deleted, func(n int) error {
+			route := "update"
+			if op.Kind == "pupdate" {
+				route = "partial-document update"
+			}
+			ok, f := r.applyWrite(fmt.Sprintf("%s of k=%d (%s, deleted=%v, was %s) with %s", route, d.K, d.ID, d.Deleted, hx.Canon(d.Vals), patch), nv, d.ID, !d.Deleted, func(n int) error {
+				if op.Kind == "pupdate" {
+					return r.partialUpdate(n, d.ID, patch)
+				}
 				return r.update(n, d.ID, patch)
 			})
 			if f != nil {
@@ -480,7 +526,16 @@ func (r *runner) history() *hx.Failure {
 			}
 			if ok {
 				d.Vals = nv
-				r.label("op:update-applied")
+				r.label("op:" + op.Kind + "-applied")
+			}
+			if ok && op.Kind == "pupdate" {
+				// the index entries must still describe the whole document
+				if f := r.checkIndexEntries(); f != nil {
+					if omitted := r.omittedIndexedFields(pv); len(omitted) > 0 && strings.HasPrefix(f.Sig, "C07/index-entries/") {
+						return hx.Failf(sigPartialUpdate, "Collection.Update with a document carrying only %s rewrites the index entries of the untouched indexed fields %v as null: %s", patch, omitted, f.Msg)
+					}
+					return f
+				}
 			}
 		case "delete", "redelete":
 			// delete targets a live document, redelete any document (also an already deleted one)
